@@ -192,7 +192,7 @@ def make_case(cid, kind, r, offset):
 
 def make_cases(tier, seed):
     per_kind_boundary = 4 if tier == 'quick' else 40
-    n_random = 12000 if tier == 'quick' else 300000
+    n_random = 25000 if tier == 'quick' else 300000
     out = []
     i = 0
     offs = list(range(W - 12, W + 13)) + [2 * W - 9, 2 * W - 1, 2 * W, 2 * W + 1]
